@@ -51,6 +51,7 @@ def t_ints(rng, lvl, u):
     out.append("def ihf%s(a):\n    return a in (%s, 5), a in [7, %s, 'x']" % (u, h, h))
     if lvl >= (3, 6):
         out.append("def ihg%s(a):\n    return a in {%s, 5}" % (u, h))
+        out.append("def ihd%s(a, b):\n    return {%s: a, 5: b}, {'k': %s, 'j': a}" % (u, h, h))
     out.append("print(i%s_0)" % u)
     return "\n".join(out)
 
@@ -292,6 +293,25 @@ def ee7%(u)s():
         return 1
     return inner()
 print(ee3%(u)s(), ee4%(u)s(7, 3), ee7%(u)s(), len(ee6%(u)s))""" % {"u": u, "uni": uni}
+
+
+@template(tags=("big_try", "try"))
+def t_big_try(rng, lvl, u):
+    """A try / except / finally (and a loop) that starts beyond byte offset 8192 of its code object: exception-table entries
+    and jump operands there need multi-byte varints / EXTENDED_ARG."""
+    body = "\n".join("    a = a + i" for _ in range(950))
+    return ("def bt%s(a, i):\n%s\n    try:\n        a = a // i\n    except ZeroDivisionError:\n        a = -1\n    finally:\n        i = 0\n"
+            "    for k in (1, 2):\n        try:\n            a += k\n        except ValueError:\n            continue\n    return a\nprint(bt%s(1, 1))" % (u, body, u))
+
+
+@template(tags=("big_literal",))
+def t_big_literal(rng, lvl, u):
+    """One bytes and one text literal a little above 1 MiB (a reader that takes long strings in chunks must not lose or
+    duplicate the tail)."""
+    n = (1 << 20) + 4096 + rng.randrange(1, 9)
+    unit = "".join(chr(33 + (i * 7) % 90) for i in range(251)).replace("\\", "/").replace("'", "!")
+    body = (unit * (n // len(unit) + 1))[:n]
+    return "bl%s = b'%s'\nsl%s = '%sZ'\nprint(len(bl%s), len(sl%s))" % (u, body, u, body[: n - 7], u, u)
 
 
 def _eq_tuples(u, variant):
@@ -909,6 +929,9 @@ print(zdel%(u)s(1)[0], zops%(u)s(5, 3)[:3], zseq%(u)s([1, 2, 3, 4, 5])[0], list(
                    "            return v, rest\n        case ZC%s(cv=1) | str() as q:\n            return q\n        case _:\n            return None" % (u, u))
     if lvl >= (3, 11):
         out.append("def zeg%s(f):\n    try:\n        f()\n    except* ValueError as eg:\n        f = eg\n    except* TypeError:\n        raise\n    return f" % u)
+    if lvl >= (3, 13):
+        out.append("def zpd%s[T = int](x: T) -> T:\n    return x\nclass ZPD%s[T = int, *Ts = *tuple[int, ...], **P = [int]]:\n    pass\n"
+                   "type ZAD%s[T = str] = list[T]" % (u, u, u))
     if lvl >= (3, 12):
         out.append("type ZA%s[T] = list[T]\ndef zgf%s[T: int](x: T) -> T:\n    return x\nclass ZG%s[T]:\n    def m(self) -> T: ...\n"
                    "def zsup%s():\n    class D(ZC%s):\n        def m(self):\n            return super().m(), super().cv\n    return D" % (u, u, u, u, u))
@@ -998,7 +1021,7 @@ print zops%(u)s(5, 3)[:3], zl%(u)s(1)
 """ % {"u": u}
 
 
-NO_WRAP = {"t_eq_tuples_a", "t_eq_tuples_b", "t_new_unicode", "t_ext_jumps", "t_opcode_zoo", "t_opcode_zoo2", "t_py2_raise", "t_ext_edges", "t_shared_frozenset", "t_shared_big_tuple", "t_many_names", "t_misc", "t_import", "t_pep695", "t_line_gaps"}
+NO_WRAP = {"t_big_try", "t_big_literal", "t_eq_tuples_a", "t_eq_tuples_b", "t_new_unicode", "t_ext_jumps", "t_opcode_zoo", "t_opcode_zoo2", "t_py2_raise", "t_ext_edges", "t_shared_frozenset", "t_shared_big_tuple", "t_many_names", "t_misc", "t_import", "t_pep695", "t_line_gaps"}
 NO_CLASS_WRAP = NO_WRAP | {"t_long_loop", "t_class3", "t_closure", "t_shared", "t_class2", "t_async", "t_control", "t_deep",
                            "t_backward_lines", "t_long_columns", "t_py2_long", "t_ints", "t_floats", "t_complex",
                            "t_strings", "t_bytes", "t_comp", "t_misc3", "t_try_nest", "t_match", "t_except_star",
